@@ -55,6 +55,16 @@ def cases(tier):
             ("cyl", "vc_wide", "vc_tight"), ("mid", "min", "max"), ("pipe", "rpipe", "cv_in", "cv_out", "pump_in"),
             (False, True), sorted(PATTERNS), (3600, 900), (False, True)):
         out.append(tank_spec(shape, init, tlink, second, pat, hyd, leak))
+    # user controls in the same hydraulic steps as the tank events: an unrelated thin pipe px toggled 50 minutes into every
+    # hour by time controls of low / default / high priority (the tank's own limit handling must not depend on them)
+    for shape, init, tlink, pat, prio in itertools.product(("cyl", "vc_wide") if tier == "quick" else ("cyl", "vc_wide", "vc_tight"),
+                                                            ("mid", "min", "max"), ("pipe", "rpipe", "cv_in"), sorted(PATTERNS), (0, 1, 3, 5)):
+        s = tank_spec(shape, init, tlink, True, pat, 3600, False)
+        s["links"].append(P("px", "R", "J1", L=900.0, D=0.1))
+        s["controls"] = [{"kind": "time", "t": k * 3600 + 3000, "link": "px", "value": "CLOSED" if k % 2 == 0 else "OPEN", "prio": prio, "name": "u%d" % k}
+                         for k in range(10)]
+        s["id"] = dict(s["id"], user_controls_priority=prio)
+        out.append(s)
     if tier == "thorough":
         for shape, init, tlink, pat, hyd, diam, lim, two in itertools.product(
                 ("cyl", "vc_wide", "vc_tight"), ("mid", "min", "max"), ("pipe", "rpipe", "cv_in", "cv_out", "pump_in"),
